@@ -1,5 +1,4 @@
 use async_lsp::client_monitor::ClientProcessMonitorLayer;
-use async_lsp::concurrency::ConcurrencyLayer;
 use async_lsp::server::LifecycleLayer;
 use async_lsp::tracing::TracingLayer;
 use tower::ServiceBuilder;
@@ -25,7 +24,10 @@ async fn main() {
         ServiceBuilder::new()
             .layer(TracingLayer::default())
             .layer(LifecycleLayer::default())
-            .layer(ConcurrencyLayer::default())
+            // No ConcurrencyLayer: the main loop of async-lsp stops polling the requests in flight
+            // while it waits for a free slot of that layer, so once its limit (default: number of
+            // CPUs) is reached the server never answers again. Requests run on the blocking
+            // thread pool, which bounds their concurrency.
             .layer(ClientProcessMonitorLayer::new(client.clone()))
             .service(Server::new_router(client))
     });
